@@ -5,9 +5,11 @@ package main
 
 import (
 	"fmt"
+	"go/constant"
 	"go/token"
 	"go/types"
 	"sort"
+	"strconv"
 
 	"golang.org/x/tools/go/ssa"
 )
@@ -37,7 +39,38 @@ func classifyTable(fn *ssa.Function) (map[int64]classRow, bool) {
 	}
 	data := fn.Params[1]
 	isTag := func(v ssa.Value) bool {
-		ld, ok := strip(v).(*ssa.UnOp)
+		v = strip(v)
+		// `tag, payload := decodeMsg(msgBytes)`: an accessor shared with the handler, a single return
+		// of data[0] of its own parameter, applied to this function's data
+		if e, ok := v.(*ssa.Extract); ok {
+			if cl, ok := e.Tuple.(*ssa.Call); ok {
+				if g := cl.Call.StaticCallee(); g != nil && pureAccessor(g) {
+					for _, in := range instrsOf(g) {
+						r, ok := in.(*ssa.Return)
+						if !ok || e.Index >= len(r.Results) {
+							continue
+						}
+						ld, ok := r.Results[e.Index].(*ssa.UnOp)
+						if !ok || ld.Op != token.MUL {
+							return false
+						}
+						ia, ok := ld.X.(*ssa.IndexAddr)
+						if !ok {
+							return false
+						}
+						p, ok := ia.X.(*ssa.Parameter)
+						k, isK := constInt(ia.Index)
+						if !ok || !isK || k != 0 {
+							return false
+						}
+						i := paramIndex(p)
+						return i >= 0 && i < len(cl.Call.Args) && strip(cl.Call.Args[i]) == strip(data)
+					}
+				}
+			}
+			return false
+		}
+		ld, ok := v.(*ssa.UnOp)
 		if !ok || ld.Op != token.MUL {
 			return false
 		}
@@ -59,6 +92,72 @@ func classifyTable(fn *ssa.Function) (map[int64]classRow, bool) {
 			}
 		}
 	}
+	// … and every key of a package-level table the tag is looked up in (`known := table[tag]`)
+	type tabLookup struct {
+		keys map[int64]constant.Value
+	}
+	lookups := map[*ssa.Lookup]*tabLookup{}
+	var ev *initEval
+	for _, in := range instrsOf(fn) {
+		lk, ok := in.(*ssa.Lookup)
+		if !ok || !isTag(lk.Index) {
+			continue
+		}
+		ld, ok := lk.X.(*ssa.UnOp)
+		if !ok || ld.Op != token.MUL {
+			return nil, false
+		}
+		g, ok := ld.X.(*ssa.Global)
+		if !ok || g.Pkg != fn.Pkg || globalStoredOutsideInit(g) {
+			return nil, false
+		}
+		if ev == nil {
+			var err error
+			if ev, err = evalPackageInit(fn.Pkg); err != nil {
+				return nil, false
+			}
+		}
+		im, ok := ev.mapOf(fn.Pkg, g.Name())
+		if !ok {
+			return nil, false
+		}
+		tl := &tabLookup{keys: map[int64]constant.Value{}}
+		for _, ks := range im.keys {
+			kv, isK := im.m[ks].(constant.Value)
+			k, err := strconv.ParseInt(ks, 10, 64)
+			if !isK || err != nil {
+				return nil, false
+			}
+			tl.keys[k] = kv
+			cands[k] = true
+		}
+		lookups[lk] = tl
+	}
+	// the value of a table lookup (or of its comma-ok flag) for tag k
+	lookupVal := func(v ssa.Value, k int64) (constant.Value, bool) {
+		switch x := v.(type) {
+		case *ssa.Lookup:
+			if tl := lookups[x]; tl != nil && !x.CommaOk {
+				if kv, has := tl.keys[k]; has {
+					return kv, true
+				}
+				return nil, false
+			}
+		case *ssa.Extract:
+			if lk, ok := x.Tuple.(*ssa.Lookup); ok {
+				if tl := lookups[lk]; tl != nil {
+					kv, has := tl.keys[k]
+					if x.Index == 1 {
+						return constant.MakeBool(has), true
+					}
+					if has {
+						return kv, true
+					}
+				}
+			}
+		}
+		return nil, false
+	}
 	// evaluate the function's control flow for each tag value (switch, if-chain and || forms alike):
 	// branches on the tag are decided, any other branch is explored both ways; the successful returns
 	// reached must agree on (round, class)
@@ -70,6 +169,9 @@ func classifyTable(fn *ssa.Function) (map[int64]classRow, bool) {
 				continue
 			}
 			break
+		}
+		if kv, ok := lookupVal(v, k); ok && kv.Kind() == constant.Bool {
+			return constant.BoolVal(kv) != neg, true
 		}
 		bo, ok := v.(*ssa.BinOp)
 		if !ok || (bo.Op != token.EQL && bo.Op != token.NEQ) {
@@ -105,6 +207,12 @@ func classifyTable(fn *ssa.Function) (map[int64]classRow, bool) {
 					return // error return
 				}
 				bk, ok2 := res[1].(*ssa.Const)
+				if !ok2 {
+					// the class read from a table
+					if kv, ok := lookupVal(res[1], k); ok && kv.Kind() == constant.Bool {
+						bk, ok2 = ssa.NewConst(kv, res[1].Type()), true
+					}
+				}
 				if !ok2 || bk.Value == nil {
 					bad = true
 					return
@@ -241,23 +349,21 @@ func checkC04(c *Ctx) {
 			c.Analysed(FuncName(f))
 		}
 		n := 0
-		for _, call := range callsOfFuncField(fns, fSend) {
+		sites, undecided := backendSendSites(fns, fSend, enc)
+		for _, call := range undecided {
 			n++
-			fn := FuncName(call.Parent())
-			pos := m.Pos(call.Pos())
-			args := call.Common().Args
-			ec, isC := strip(args[0]).(*ssa.Call)
-			if !isC || staticCallee(&ec.Call) != enc {
-				c.Unk(T2, fn, "sendMsg call", pos, "the message is not built by encodeMsg with a constant tag")
-				continue
-			}
-			k, okK := constInt(ec.Call.Args[0])
-			bc, okB := args[1].(*ssa.Const)
-			if !okK || !okB || bc.Value == nil {
+			c.Unk(T2, FuncName(call.Parent()), "sendMsg call", m.Pos(call.Pos()), "the message is not built by encodeMsg with a tag that is constant at this send site (or at every call of the enclosing helper)")
+		}
+		for _, ss := range sites {
+			n++
+			fn := FuncName(ss.at.Parent())
+			pos := m.Pos(ss.at.Pos())
+			k := ss.tag
+			sentB, okB := ss.bcastConst()
+			if !okB {
 				c.Unk(T2, fn, "sendMsg call", pos, "tag or class is not a constant at this send site")
 				continue
 			}
-			sentB := bc.Value.String() == "true"
 			row, has := tab[k]
 			construct := fmt.Sprintf("sendMsg(encodeMsg(%d,…), %v,…)", k, sentB)
 			switch {
@@ -366,6 +472,7 @@ func checkC04(c *Ctx) {
 	}
 	ruleC04Drops(c, r)
 	ruleC04Callbacks(c)
+	ruleC04FreshFrames(c)
 	// V2: the tables above say that broadcast types have distinct rounds; that helps only if the round a
 	// received payload is registered under IS the local classifier's verdict on that payload (and an
 	// acknowledgement's round the decoder's output) — the provenance rule shared with C02.V1 / C03.V2
@@ -393,8 +500,9 @@ func ruleC04Callbacks(c *Ctx) {
 			continue
 		}
 		for k, what := range []string{"acknowledgement callback reaches Send", "hand-over callback reaches OnMsg"} {
-			mc, ok := strip(args[k]).(*ssa.MakeClosure)
-			if !ok {
+			// (a literal, or the literal a closure factory called here returns)
+			mc, fc := closureLiteral(args[k])
+			if mc == nil {
 				c.Unk(O3, FuncName(ci.Parent()), what, t.m.Pos(ci.Pos()), "the callback is not a function literal")
 				continue
 			}
@@ -412,17 +520,31 @@ func ruleC04Callbacks(c *Ctx) {
 					}
 					// the payload is the encoding of this callback's own arguments
 					sl := t.sl.Slice(cc.Args[2])
-					for _, p := range lit.Params {
+					// (for a method value: the method's own parameters, without the receiver)
+					params := lit.Params
+					if body := litBody(lit); body != lit && body.Signature.Recv() != nil && len(body.Params) > 0 {
+						params = body.Params[1:]
+					}
+					for _, p := range params {
 						if !sl[p] {
 							return false
 						}
 					}
 					return true
 				}
-				return cc.IsInvoke() && cc.Method.Name() == "OnMsg"
+				if cc.IsInvoke() && cc.Method.Name() == "OnMsg" {
+					return true
+				}
+				// the factory was given the backend's OnMsg as a method value
+				if fa := factoryArg(cc.Value, fc); fa != nil {
+					if _, meth, isB := boundMethod(fa); isB && meth.Name() == "OnMsg" {
+						return true
+					}
+				}
+				return false
 			}
 			bad := ""
-			for _, e := range undoneExits(lit, done, nil) {
+			for _, e := range undoneExits(litBody(lit), withCallees(done, 0), nil) { // (a step that always does it counts)
 				at := t.m.Pos(e.Ret.Instrs[len(e.Ret.Instrs)-1].Pos())
 				if e.B == nil {
 					bad = "the return at " + at + " is reached without it"
@@ -542,6 +664,15 @@ func ruleC04Drops(c *Ctx, r *rbcModel) {
 				return false
 			}
 			f := factOf(Guard{iff, succ == 0})
+			// (the test may be on the verdict of a screening helper: what its returns with that verdict establish)
+			for _, hf := range helperOutcomeFacts(f, 0) {
+				switch {
+				case hf.Op == token.EQL && ((r.isAckSender(hf.X) && r.isSelfID(hf.Y)) || (r.isAckSender(hf.Y) && r.isSelfID(hf.X))):
+					return true // acknowledgement about an own message
+				case hf.Op == token.EQL && ((r.isAckSender(hf.X) && strip(hf.Y) == ssa.Value(r.paramFrom)) || (r.isAckSender(hf.Y) && strip(hf.X) == ssa.Value(r.paramFrom))):
+					return true // self-vouch
+				}
+			}
 			switch {
 			case f.Op == 0 && f.True && isLoadOfField(f.Bool, r.fEquiv):
 				return true // halted
@@ -561,6 +692,20 @@ func ruleC04Drops(c *Ctx, r *rbcModel) {
 				}
 			}
 			return false
+		}
+		// a step split off a registering function (its only caller), called after the registration has
+		// happened: none of its exits skips it
+		if cs := helperCall(fn); cs != nil {
+			after := false
+			for _, in := range instrsOf(cs.Parent()) {
+				if in != ssa.Instruction(cs) && registered(in) && instrDominates(in, cs) {
+					after = true
+				}
+			}
+			if after {
+				c.Check(true, O2, FuncName(fn), "exits without registration", m.Pos(fn.Pos()), "called only after the registration in "+FuncName(cs.Parent()), "")
+				continue
+			}
 		}
 		bad := ""
 		for _, e := range undoneExits(fn, registered, skip) {
@@ -595,4 +740,144 @@ func (r *rbcModel) deliveredFlag() *types.Var {
 		}
 	}
 	return nil
+}
+
+// pureAccessor: a function with one block and one return whose results are read off its parameters
+// (index/slice/field expressions), with no calls and no stores.
+func pureAccessor(g *ssa.Function) bool {
+	if g == nil || len(g.Blocks) != 1 || len(g.FreeVars) > 0 {
+		return false
+	}
+	for _, in := range g.Blocks[0].Instrs {
+		switch in.(type) {
+		case *ssa.IndexAddr, *ssa.UnOp, *ssa.Slice, *ssa.Return, *ssa.Field, *ssa.FieldAddr, *ssa.Convert, *ssa.ChangeType, *ssa.DebugRef:
+		default:
+			return false
+		}
+	}
+	return true
+}
+
+// globalStoredOutsideInit: a package-level variable assigned (or whose address escapes) anywhere but in
+// the package initialiser.
+func globalStoredOutsideInit(g *ssa.Global) bool {
+	if g.Pkg == nil {
+		return true
+	}
+	var roots []*ssa.Function
+	for _, mem := range g.Pkg.Members {
+		switch x := mem.(type) {
+		case *ssa.Function:
+			roots = append(roots, x)
+		case *ssa.Type:
+			n, ok := x.Type().(*types.Named)
+			if !ok {
+				continue
+			}
+			for _, t := range []types.Type{n, types.NewPointer(n)} {
+				ms := g.Pkg.Prog.MethodSets.MethodSet(t)
+				for i := 0; i < ms.Len(); i++ {
+					if f := g.Pkg.Prog.MethodValue(ms.At(i)); f != nil && f.Pkg == g.Pkg {
+						roots = append(roots, f)
+					}
+				}
+			}
+		}
+	}
+	for _, f := range roots {
+		for _, fn := range WithAnon(f) {
+			if fn.Name() == "init" && fn.Parent() == nil {
+				continue
+			}
+			for _, b := range fn.Blocks {
+				for _, in := range b.Instrs {
+					for _, op := range in.Operands(nil) {
+						if *op != ssa.Value(g) {
+							continue
+						}
+						if ld, ok := in.(*ssa.UnOp); ok && ld.Op == token.MUL {
+							// a read; a map read through it may still be updated: look for updates
+							for _, r := range *ld.Referrers() {
+								if _, isUp := r.(*ssa.MapUpdate); isUp {
+									return true
+								}
+								if cl, isC := r.(ssa.CallInstruction); isC {
+									if bi, isB := cl.Common().Value.(*ssa.Builtin); isB && (bi.Name() == "len") {
+										continue
+									}
+									return true // handed to a function (delete, or anything that may write)
+								}
+								if _, isSt := r.(*ssa.Store); isSt {
+									return true
+								}
+							}
+							continue
+						}
+						return true
+					}
+				}
+			}
+		}
+	}
+	// methods
+	return false
+}
+
+// ruleC04FreshFrames (C04.F1): every frame the orchestrator hands to Scheme.Send is built in a buffer of
+// its own.  Send keeps the slice after it returns (the transport queues it for a writer goroutine, the
+// silent-mode Box passes it on): a frame assembled in a scratch buffer that outlives the invocation —
+// a captured variable, a field, a global, re-sliced to [:0] and appended to — is overwritten by the next
+// message while it is still queued.  A private message then arrives as (part of) a later broadcast: the
+// addressee never gets it and honest parties see two different digests for one (sender, round).
+// Decided: the buffer the payload argument was grown from (through append chains, loops and transparent
+// helpers) is a nil slice, a make or a literal of the same invocation, or a value the invocation was
+// given as a parameter — never a load from memory that persists across invocations.
+func ruleC04FreshFrames(c *Ctx) {
+	const F1 = "C04.F1"
+	c.Rule(F1, "frames handed to Scheme.Send are built in a buffer of their own (no scratch buffer shared across sends)", 4)
+	t := buildThresholdModel(c)
+	if t == nil {
+		return
+	}
+	n := 0
+	for _, call := range callsOfFuncField(t.fns, t.fSend) {
+		args := call.Common().Args
+		if len(args) < 3 {
+			continue
+		}
+		n++
+		root := bufferRoot(args[2])
+		bad := ""
+		switch x := root.(type) {
+		case *ssa.UnOp:
+			if x.Op == token.MUL {
+				switch a := x.X.(type) {
+				case *ssa.FreeVar:
+					bad = "a variable captured from the enclosing function (" + a.Name() + ")"
+				case *ssa.FieldAddr:
+					bad = "a field (" + fieldOfAddr(a).Name() + ")"
+				case *ssa.Global:
+					bad = "a package-level variable (" + a.Name() + ")"
+				case *ssa.Alloc:
+					// a local cell: fine unless closures that outlive this invocation write it — a cell
+					// captured by a literal is shared with every invocation of that literal
+					if a.Referrers() != nil {
+						for _, r := range *a.Referrers() {
+							if _, isMC := r.(*ssa.MakeClosure); isMC {
+								if sts := storesToCell(a); len(sts) > 1 {
+									bad = "a local variable shared with a function literal and assigned more than once (" + a.Comment + ")"
+								}
+							}
+						}
+					}
+				}
+			}
+		}
+		c.Check(bad == "", F1, FuncName(call.Parent()), "payload buffer of a send", t.m.Pos(call.Pos()),
+			"grown from "+render(root)+": a buffer of this invocation (or the caller's value)",
+			"the frame is assembled in "+bad+", re-used by every send: Send keeps the slice (transport queue, message box), so the next message overwrites a frame that is still queued — a private message is lost and receivers see conflicting digests for one sender and round in a fault-free run")
+	}
+	if n == 0 {
+		c.Bad(F1, "threshold", "sends", "-", "no call of Scheme.Send found")
+	}
 }
